@@ -29,6 +29,8 @@ func alphabet(types, pids []string, lists []string, nodeIDs []string) []string {
 			a = append(a, fmt.Sprintf("rmpipe %s %s", t, p), fmt.Sprintf("rmpipenodes %s %s", t, p))
 		}
 	}
+	// the same removals with an already cancelled context: the outcome must not depend on it
+	a = append(a, fmt.Sprintf("rmpipenodesx %s %s", types[0], pids[0]), "rmnodex "+nodeIDs[1])
 	for _, n := range nodeIDs {
 		a = append(a, "rmnode "+n)
 	}
@@ -67,7 +69,7 @@ var harness = &seqmc.Harness{
 
 func main() {
 	hk.Main(seqmc.Check(harness,
-		"breadth-first search over all call histories up to the depth bound of {RegisterNode (incl. overwrite), RegisterPipeline (incl. overwrite and a list with a duplicated id), RemovePipeline, RemovePipelineAndNodes, RemoveNode, probe Send} on the real Broker, states de-duplicated on the reflective dump of the Broker's entire private state (harness objects named id@age) plus the reference model. After every call: its result, which node objects were closed (exactly the expected ones, once) and the probe deliveries are compared with the model 'a node is in use iff a currently registered pipeline lists it'.",
+		"breadth-first search over all call histories up to the depth bound of {RegisterNode (incl. overwrite), RegisterPipeline (incl. overwrite and a list with a duplicated id), RemovePipeline, RemovePipelineAndNodes, RemoveNode (each also with an already cancelled context), probe Send} on the real Broker, states de-duplicated on the reflective dump of the Broker's entire private state (harness objects named id@age) plus the reference model. After every call: its result, which node objects were closed (exactly the expected ones, once) and the probe deliveries are compared with the model 'a node is in use iff a currently registered pipeline lists it'.",
 		[]string{
 			"'node' is the id registration: which object a re-registered id closes is an observation, not a violation",
 			"depth 6 (quick) / 8 (thorough); 2 event types, 2-3 pipeline ids, 4 node ids",
